@@ -24,8 +24,12 @@ MANIFEST = dict(
          "convention); separation = gcirc(point 1, point 2, degrees) with matching units; a pair is counted once, in bin "
          "trunc((log10(scale*d) - log10(rmin))/binsize) with binsize = (log10 rmax - log10 rmin)/nbin, only when "
          "0 <= bin < nbin AND the quotient is not negative (a truncating cast maps (-1,0) to bin 0: pairs just below rmin would be counted); "
-         "(4) python: reverse indices are built by histogram(htmid2 - minid) anchored at 0 with unit bins so that bin k is id minid + k "
-         "whatever minid the caller supplies; sizes checked; bin edges from the same rmin, rmax, nbin.",
+         "(4) python: reverse indices are built by histogram(htmid2 - minid) anchored at 0 with unit bins (binsize 1 and none of the parameters through which "
+         "the histogram code, by its own source, replaces the bin size: nbin, nperbin) so that bin k is id minid + k "
+         "whatever minid the caller supplies; sizes checked; bin edges from the same rmin, rmax, nbin; (5) vendored code, necessary conditions only: a method that "
+         "handles a stored node hands the node's HTM id (not its position in the node array) to the result lists and searches all four stored children; every edge "
+         "test `(a x b) . v <rel> t` of the id descent (idByPoint, isInside) accepts the products within rounding of 0 (t at least one unit roundoff on the rejected "
+         "side), so that a position on an edge shared by sibling triangles is accepted by one of them at every level.",
     note="Not decided (the reason the property was first declared not applicable): ids are in the valid range and hierarchical, the circle "
          "lists cover every position inside the circle, fully-inside triangles contain only inside positions, pair counts equal brute force "
          "for the vendored SpatialIndex/SpatialDomain code. Trusted: clang AST, SWIG naming convention, LP64.",
